@@ -30,7 +30,10 @@ type rItem struct {
 type rRound struct {
 	Items []rItem `json:"items"`
 	Cuts  []int   `json:"cuts,omitempty"`
-	Mode  string  `json:"mode"` // manual | until-true | until-eof | until-err | until-nil
+	Mode  string  `json:"mode"` // manual | until-true | until-eof | until-err | until-nil | mixed
+	// Mode2 (mode mixed): the callback returns true at invocation StopAt (any package), the call returns, and the
+	// rest of the response is read with manual / until-true / until-nil ("skip the rest").
+	Mode2 string `json:"mode2,omitempty"`
 	// ErrEOF: the callback's error wraps io.EOF (legal: only an UNWRAPPED io.EOF has a special meaning).
 	ErrEOF   bool `json:"err_eof,omitempty"`
 	StopAt   int  `json:"stop_at,omitempty"`   // until-eof/until-err: index of the callback invocation that aborts
@@ -251,7 +254,10 @@ func genRounds(r *Rand, nRounds int, eedPct, envPct int, hooks bool) []rRound {
 		for c := r.Intn(4); c > 0 && len(body) > 1; c-- {
 			rd.Cuts = append(rd.Cuts, 1+r.Intn(len(body)-1))
 		}
-		rd.Mode = Pick(r, []string{"manual", "until-true", "until-eof", "until-err", "until-err", "until-nil"})
+		rd.Mode = Pick(r, []string{"manual", "until-true", "until-eof", "until-err", "until-err", "until-nil", "mixed"})
+		if rd.Mode == "mixed" {
+			rd.Mode2 = Pick(r, []string{"manual", "until-true", "until-nil", "until-nil"})
+		}
 		_, cb := expectRound(items)
 		rd.StopAt = r.Intn(len(cb))
 		rd.Poll = rd.Mode != "manual" && r.Pct(25)
@@ -542,6 +548,44 @@ func runRounds(p *roundsPlan, schedSeed uint64, replay []simrt.Choice, lenient, 
 					}
 					break
 				}
+			case "mixed":
+				calls := 0
+				pkg, err := ch.NextPackageUntil(ctx, true, func(pkg tds.Package) (bool, error) {
+					see(pkg)
+					calls++
+					return calls-1 == rd.StopAt || isFinal(pkg), nil
+				})
+				if err != nil {
+					ro.callErr = err
+					break
+				}
+				ro.callPkg = pkg != nil
+				if pkg != nil && isFinal(pkg) {
+					break
+				}
+				simrt.Record("switch-mode", rd.Mode2, "", 0)
+				switch rd.Mode2 {
+				case "manual":
+					for n := 0; n < 300; n++ {
+						pkg, err := ch.NextPackage(ctx, true)
+						if err != nil {
+							ro.callErr = err
+							break
+						}
+						see(pkg)
+						if isFinal(pkg) {
+							break
+						}
+					}
+				case "until-true":
+					if _, err := ch.NextPackageUntil(ctx, true, func(pkg tds.Package) (bool, error) { see(pkg); return isFinal(pkg), nil }); err != nil {
+						ro.callErr = err
+					}
+				default: // until-nil: skip the rest
+					if _, err := ch.NextPackageUntil(ctx, true, nil); err != nil && err != io.EOF {
+						ro.callErr = err
+					}
+				}
 			case "until-err":
 				calls := 0
 				pkg, err := pollUntil(rd.Poll, func(wait bool) (tds.Package, error) {
@@ -771,6 +815,38 @@ func (c03) Run(plan interface{}, schedSeed uint64, replay []simrt.Choice, lenien
 			}
 		case "until-nil":
 			// only "the response is consumed" is demanded of this mode: checked by the next round / leftover check
+		case "mixed":
+			if ro.callErr != nil {
+				v.Violate("error", "mixed: error while reading", "%s then %s: %v", where, rd.Mode2, ro.callErr)
+			}
+			// first part: the callback-visible packages up to the one that made the call return
+			n1 := rd.StopAt + 1
+			if n1 > len(cb) {
+				n1 = len(cb)
+			}
+			want := append([]string{}, cb[:n1]...)
+			if n1 < len(cb) {
+				switch rd.Mode2 {
+				case "manual":
+					// everything visible that follows the package the first call returned
+					pos, seen := -1, 0
+					for i, d := range all {
+						if !strings.HasPrefix(d, "EED ") {
+							seen++
+							if seen == n1 {
+								pos = i
+								break
+							}
+						}
+					}
+					want = append(want, all[pos+1:]...)
+				case "until-true":
+					want = append(want, cb[n1:]...)
+				}
+			}
+			if d := firstDiff(want, ro.seen); d != "" {
+				v.Violate("wrong-response", "mixed: wrong packages ("+rd.Mode2+", "+endOf(rd.Items)+")", "%s then %s: %s", where, rd.Mode2, d)
+			}
 		}
 	}
 	if len(p.Rounds) >= 2 {
@@ -1101,7 +1177,7 @@ func (c11) Run(plan interface{}, schedSeed uint64, replay []simrt.Choice, lenien
 
 // RequiredProbes: a batch in which one of these never fired explored nothing of that kind (exit 2, not a pass).
 func (c03) RequiredProbes() []string {
-	return []string{"mode:manual", "mode:until-true", "mode:until-eof", "mode:until-err", "mode:until-nil", "end:final-done", "end:done-with-bits", "end:no-done", "end:nothing-visible"}
+	return []string{"mode:manual", "mode:until-true", "mode:until-eof", "mode:until-err", "mode:until-nil", "mode:mixed", "end:final-done", "end:done-with-bits", "end:no-done", "end:nothing-visible"}
 }
 func (c11) RequiredProbes() []string {
 	return []string{"eed-hook-calls", "env-hook-calls", "concurrent-hook-registration"}
